@@ -117,11 +117,11 @@ class Walker:
             inside = self.fl.subtree(head)
             o = self.rnd.choice(inside[1:] or inside)
             last = getattr(self, "_last_origin", None)
-            if last and last[0] == r and self.rnd.random() < 0.3:
+            if last and last[0] == r and self.rnd.random() < self.profile.get("sameorigin", 0.3):
                 o = last[1]                         # several tasks from one origin
             self._last_origin = (r, o)
             d = self.rnd.choice(inside if self.rnd.random() < 0.8 else list(range(1, self.fl.n + 1)))
-            if self.rnd.random() < 0.15:
+            if self.rnd.random() < self.profile.get("cyclic", 0.15):
                 d = o                               # a cyclic task (self-link)
             k = self.rnd.choice(self.kinds + ["schedule"])
             return "plan_append:%d:%d:%d:%s:%d" % (r, o, d, k, self.payload())
@@ -354,6 +354,52 @@ def random_walks(fx, exe, out_path, seed, records, episode_len=60, profile=None)
             crash = ex.dead
             break
         total += n
+    ex.close()
+    return ex.records, crash
+
+
+def plan_scenarios(fx, exe, out_path, payloads=(0,)):
+    """scripted plan situations that random walks reach rarely: for every composite region with two plain sub-states A, B
+    a plan [A->A (cyclic), A->B] (and [A->B, A->A]) whose origin succeeds, then fails; several tasks per origin;
+    tasks whose origin is inactive ahead of active ones.  Returns (records, crash or None)"""
+    fl = gen.Flat(fx["shape"])
+    cfg = gen.cfg_of(fx)
+    ex = Exec(exe, out_path)
+    crash = None
+
+    def run(cmds):
+        nonlocal crash
+        for c in cmds:
+            first = c.split()[0]
+            if first in ("hook", "sel", "rank", "util", "rng"):
+                ex.send(c)
+            elif ex.call(c) is None:
+                crash = ex.dead
+                return False
+        return True
+    start = ["new"] + (["enter"] if cfg["manual"] else [])
+    for h in range(1, fl.n + 1):
+        st = fl.st(h)
+        if st["kind"] != "C":
+            continue
+        leaves = [k for k in st["kids"] if fl.st(k)["kind"] == "S"]
+        if len(leaves) < 2:
+            continue
+        a, b = leaves[0], leaves[1]
+        r = st["region"]
+        for p in payloads:
+            for kind in ("change", "restart"):
+                for order in (0, 1):
+                    tasks = ["pa %d %d %d %s %d" % (r, a, a, kind, p), "pa %d %d %d %s %d" % (r, a, b, kind, p)]
+                    if order:
+                        tasks.reverse()
+                    seq = start + ["imm change %d 0" % a] + tasks + ["hook %d update 1 succeed:%d" % (a, a), "update", "update",
+                                                                     "hook %d update 1 succeed:%d" % (a, a), "update", "update"]
+                    seq += ["pa %d %d %d change %d" % (r, b, a, p), "pa %d %d %d change %d" % (r, a, b, p),
+                            "hook %d postUpdate 1 succeed:%d" % (a, a), "update", "hook %d update 1 fail:%d" % (b, b), "update", "update", "del"]
+                    if not run(seq):
+                        ex.close()
+                        return ex.records, crash
     ex.close()
     return ex.records, crash
 
